@@ -2,7 +2,10 @@ module verifdirect
 
 go 1.22.0
 
-require github.com/enbility/ship-go v0.0.0
+require (
+	github.com/enbility/ship-go v0.0.0
+	github.com/gorilla/websocket v1.5.3
+)
 
 require gitlab.com/c0b/go-ordered-json v0.0.0-20201030195603-febf46534d5a // indirect
 
